@@ -10,6 +10,7 @@
 //   - struct-literal defaults returned by a constructor (numeric / bool fields);
 //   - string-keyed map literals and slices of string literals;
 //   - the inventory of package-level variables written outside init.
+//
 // Anything outside the fragment makes gotrans fail (exit 2): a broken
 // obligation, reported by ./check as such.
 package main
